@@ -1301,11 +1301,14 @@ def _affinity_region(ctx, R, amap):
     vals = [norm_minmax(e[3]) for e in stores]
     txt = ' | '.join(fmt(v)[:200] for v in vals)
     has_below = any('delta' in fmt(v) and 'delta_factor' in fmt(v) for v in vals)
-    has_clip = all(any(x == ('num', 0) for x in walk_expr(v)) for v in vals) if vals else False
+    # the clip is the outermost operation of BOTH arms: value = max(0, arm) on the below-tau and on the above-tau path
+    arm_vals = [norm_minmax(a[3]) for e in stores for a in _split_on(e, 'tau')]
+    has_clip = bool(arm_vals) and all(v[0] == 'max' and any(x in (('num', 0), ('num', 0.0)) for x in v[1]) for v in arm_vals)
     taus = [c for e in stores for c in kern._conj(e[1]) if 'tau' in fmt(c)] + [x for v in vals for x in walk_expr(v) if x[0] == 'cond' and 'tau' in fmt(x[1])]
     ctx.check(bool(vals) and has_below and bool(taus), 'R-REC', R.file, R.fname, 'region %s affinity arms' % R.name,
               'the region must compute max(0, delta + delta_factor*prev) below tau and max(0, d + prev) otherwise; found %s' % txt[:300], R.main.line)
-    ctx.check(has_clip, 'R-REC', R.file, R.fname, 'region %s clip at zero' % R.name, 'affinity cells are clipped at 0', R.main.line)
+    ctx.check(has_clip, 'R-REC', R.file, R.fname, 'region %s clip at zero' % R.name,
+              'affinity cells are clipped at 0 on both arms of the tau test; found arm values %s' % ' | '.join(fmt(v)[:120] for v in arm_vals), R.main.line)
     # the tau test: delta arm iff d < tau (strict), in every region alike and as in the Python engine
     cmps = []
     for c in taus:
@@ -1616,6 +1619,27 @@ def rule_wps_readers(ctx, m, affinity=False):
                     _report(ctx, r, 'R-MAP', RR.file, fname, 'region %s %s column' % (WR.name, nm), inst,
                             'in region %s the %s column scanned by %s (%s) differs from the %s in-band column the writer fills (%s): in-band cells are never visited'
                             % (WR.name, nm, fname, sym.show(rd)[:70], nm, sym.show(wr)[:70]), RR.loop.line)
+            # (v) a slice expansion visits EVERY row of the writer's region that lies in the requested slice, and every in-band column of the slice in it:
+            #     rows [max(rb-1, 0), max(re-1, 0)) x columns up to max(ce-1, 0), in DP coordinates (row / column 0 of the full matrix is the border)
+            if fname.startswith('dtw_expand_wps_slice'):
+                extra0, guards0 = extra, guards
+                extra = tuple(sorted(set(extra) | {'rb', 're'}))
+                guards = guards + [V(a) for a in extra if a not in extra0] + ([sub(V('re'), V('rb'))] if not {'rb', 're'} <= set(extra0) else [])
+                rbs, res = tmax(sub(V('rb'), C(1)), C(0)), tmax(sub(V('re'), C(1)), C(0))
+                w_lo, w_hi = tmax(rbs, WR.lo), tmin(res, WR.hi)
+                cnt_r, cnt_w = tmax(C(0), sub(RR.hi, RR.lo)), tmax(C(0), sub(w_hi, w_lo))
+                g0 = [g for g in guards if 'ri' not in sym.atoms(g)]
+                r = decide_equal(pdefs, cnt_r, cnt_w, g0, extra_atoms=extra, box=box)
+                inst = '%s region %s covers the slice rows' % (fname, WR.name)
+                _report(ctx, r, 'R-MAP', RR.file, fname, 'region %s row coverage' % WR.name, inst,
+                        'the %s loop of %s must visit exactly the rows of the writer\'s region %s inside the requested slice (%s rows), it visits %s: rows of the slice stay at '
+                        'their infinity filler' % (WR.name, fname, WR.name, sym.show(cnt_w)[:80], sym.show(cnt_r)[:80]), RR.loop.line)
+                if r[0] == 'equal':
+                    r = decide_equal(pdefs, RR.lo, w_lo, g0 + [sub(sub(RR.hi, RR.lo), C(1))], extra_atoms=extra, box=box)
+                    _report(ctx, r, 'R-MAP', RR.file, fname, 'region %s first row' % WR.name, '%s region %s first slice row' % (fname, WR.name),
+                            'the %s loop of %s starts at row %s, the first row of region %s inside the slice is %s' % (WR.name, fname, sym.show(RR.lo)[:60], WR.name, sym.show(w_lo)[:60]),
+                            RR.loop.line)
+                extra, guards = extra0, guards0
             # (iii) the row base addresses buffer row (DP row + 1)
             if RR.access is not None and RR.access[0] == 'lin':
                 co_ = dict(RR.access[1])
